@@ -62,11 +62,47 @@ struct Job {
     pad: bool,
 }
 
+/// Batches across background maintenance: every program over {two-keyspace batches, single insert, rotate, every queued
+/// worker message with and without journal rotation}; a process-crash image after each program must contain every
+/// batch entirely or not at all (a journal evicted too early, or a half-flushed batch that recovery skips, tears one).
+fn maintenance_passes(tier: &str) -> Vec<crate::seqrun::Pass> {
+    use crate::seqprop::*;
+    let q = tier == "quick";
+    let it = |ks, k, v| Item { ks, k, v };
+    let mk = |name: &str, cfg: Cfg, pfx: &str, depth: usize, secs: f64| {
+        let mut a = Alpha::empty();
+        a.ins = vec![(1, 2, 0)];
+        let groups = vec![vec![it(0, 0, Some(0)), it(1, 0, Some(0))], vec![it(0, 2, Some(1)), it(1, 0, Some(1)), it(0, 0, None)]];
+        if cfg.kind == DbKind::Plain {
+            a.batches = groups;
+        } else {
+            a.txs = groups;
+        }
+        a.rotate = vec![0, 1];
+        a.jrot = true;
+        let mut prop = SeqProp::new("C03", cfg, a);
+        prop.prefix = prefix(pfx);
+        prop.crash_atomicity_oracle = true;
+        crate::seqrun::Pass { name: name.to_string(), prop, depth, min_depth: 3, budget: Duration::from_secs_f64(secs), dedup_extra: 0, dedup_budget: Duration::ZERO }
+    };
+    let d = Cfg::default2();
+    let mut v = vec![mk("batches-across-maintenance", d.clone(), "", if q { 5 } else { 7 }, if q { 7.0 } else { 240.0 })];
+    v.push(mk("batches-across-maintenance/two-sealed-journals", d.clone(), "two_sealed_journals", if q { 3 } else { 5 }, if q { 3.0 } else { 120.0 }));
+    if !q {
+        v.push(mk("tx-across-maintenance/single-writer", Cfg { kind: DbKind::SingleWriter, ..d.clone() }, "", 6, 120.0));
+        v.push(mk("tx-across-maintenance/optimistic", Cfg { kind: DbKind::Optimistic, ..d.clone() }, "", 6, 120.0));
+    }
+    v
+}
+
 pub fn run(tier: &str) -> i32 {
     let t0 = Instant::now();
     let mut o = Outcome::new("C03", tier, "fault_enumeration");
+    let mpasses = maintenance_passes(tier);
+    crate::seqrun::run_passes(&mut o, &mpasses);
+    let passes_exhaustive = o.coverage.get("exhaustive").and_then(|v| v.as_bool()).unwrap_or(true);
     let budget = if tier == "quick" { 40.0 } else { 1100.0 };
-    let deadline = t0 + Duration::from_secs_f64(budget);
+    let deadline = Instant::now() + Duration::from_secs_f64(budget);
     let shapes = shapes(tier);
 
     // Phase 1: record every shape (database kept open = process-crash image of the journal), note record boundaries.
@@ -242,14 +278,14 @@ pub fn run(tier: &str) -> i32 {
     let f = findings.into_inner().unwrap();
     o.cov("evaluations", json!(done));
     o.cov("distinct_nontrivial", json!(st.0));
-    o.cov("rule", json!("for each batch/transaction shape the journal written by the real code is cut at EVERY byte offset 0..=used length (large records: every byte within 100 of a record edge + 32 evenly spaced payload offsets + 8 KiB buffer boundaries in quick tier, every byte in thorough), once ending there and once zero-padded to the preallocated size; the image is recovered by the real code and must equal the model after exactly the batches that end at or before the cut; then a further batch is appended, the database closed and reopened. non-trivial = cuts strictly inside a record (torn batch)"));
+    o.cov("rule", json!("for each batch/transaction shape the journal written by the real code is cut at EVERY byte offset 0..=used length (large records: every byte within 100 of a record edge + 32 evenly spaced payload offsets + 8 KiB buffer boundaries in quick tier, every byte in thorough), once ending there and once zero-padded to the preallocated size; the image is recovered by the real code and must equal the model after exactly the batches that end at or before the cut; then a further batch is appended, the database closed and reopened. non-trivial = cuts strictly inside a record (torn batch). In addition (coverage.passes): every program up to the per-pass depth over {two-keyspace batches or transactions, single insert, memtable rotation, every queued worker message with and without journal rotation} is executed with stepped background work; after each program a process-crash image is recovered and every committed batch must be present entirely or not at all"));
     o.cov("shapes", json!(shapes.iter().map(|s| json!({"name": s.name, "cfg": s.cfg.name(), "ops": s.ops})).collect::<Vec<_>>()));
     o.cov("jobs_total", json!(jobs.len()));
     o.cov("cuts_inside_a_record", json!(st.0));
     o.cov("cuts_at_record_boundary", json!(st.1));
     o.cov("append_after_repair_checks", json!(st.2));
     o.cov("distinct_outcomes", json!(outcomes.lock().unwrap().len()));
-    o.cov("exhaustive", json!(!timed_out));
+    o.cov("exhaustive", json!(!timed_out && passes_exhaustive));
     for (i, p) in prepared.iter().enumerate().take(3) {
         o.sample(json!({"shape": shapes[i].name, "ops": shapes[i].ops, "record_end_offsets": p.offs, "example": format!("cut at byte {} zero-padded -> expect state after {} ops", p.offs.last().unwrap() - 1, p.offs.len() - 2)}));
     }
@@ -267,12 +303,23 @@ pub fn run(tier: &str) -> i32 {
     // group findings: keep the smallest cut per signature
     let mut f = f;
     f.sort_by_key(|x| (x.sig.clone(), x.variant["cut"].as_u64().unwrap_or(0)));
-    o.findings = f;
+    o.findings.extend(f);
     o.wall_s = t0.elapsed().as_secs_f64();
     finish(o)
 }
 
 pub fn replay(v: &serde_json::Value) -> i32 {
+    if v["engine"] == "E1-seqcheck" {
+        let name = v["variant"]["pass"].as_str().unwrap_or("");
+        let plen = v["variant"]["prefix_len"].as_u64().unwrap_or(0) as usize;
+        let program: Vec<String> = v["program"].as_array().map(|a| a.iter().filter_map(|s| s.as_str().map(String::from)).collect()).unwrap_or_default();
+        for tier in ["quick", "thorough"] {
+            if let Some(p) = maintenance_passes(tier).into_iter().find(|p| p.name == name) {
+                return crate::seqrun::replay_with(&p, &program, plen);
+            }
+        }
+        return 2;
+    }
     let shape = v["variant"]["shape"].as_str().unwrap_or("");
     let cut = v["variant"]["cut"].as_u64().unwrap_or(0);
     let pad = v["variant"]["pad"].as_bool().unwrap_or(false);
